@@ -30,6 +30,20 @@ def gen_case(r):
         return ("str", toks, delim), [d2, d], None
     p = G.guided_path(r, d, max_len=4, miss=12, mode="typed", labels=True, meaningful=True, jsonable=True, cond_depth=3)
     d2 = G.doc(r, 3, sc=lambda rr: G.json_value(rr, 0))
+    if r.pct() < 15:
+        # a part whose condition argument holds a path-looking mapping at depth 0, 1 or deeper
+        from . import c11
+        lit = c11.special_arg(r)
+        while isinstance(lit, PathT):
+            lit = c11.pathy_literal(r)
+        cond = Leaf("value", None, r.choice(["equal_to", "not_equal_to"]), kwargs={"value": lit})
+        parts = list(p.parts)
+        part = Part(r.choice(["map", "list", "mol"]), value=cond, label=r.choice([None, "L"]))
+        if parts and r.coin():
+            parts[r.below(len(parts))] = part
+        else:
+            parts.append(part)
+        p = PathT(parts)
     spec = None
     if route == "spec":
         spec = [SP.part_spec(x, SP.Spelling(r)) for x in p.parts]
